@@ -412,6 +412,7 @@ def check_C06(run):
                 # connection, descriptors above 2^31, negative references)
                 for rs in range(len(REF_SETS)):
                     cmds.append({"c": "wcaps", "tid": tid, "v": v, "wks": wks[:3], "extra": 2, "refs": refs_for(rs) * 4})
+                    cmds.append({"c": "wcaps", "tid": tid, "v": v, "wks": wks[:3], "extra": 2, "refs": refs_for(rs) * 4, "hmode": "refs-always"})
     # every other value (medium and large): estimate vs. bytes only (no capacity sweep)
     for tid, S, v in stimuli_values(run, types, big=True, nrandom=0):
         if (tid, vf.digest(v)) not in run.distinct:
@@ -472,6 +473,16 @@ def check_C10(run):
         for rk in ("pedantic", "sstream", {"bounded": "buffer", "limit": 1 << 26}):
             bgroups.append([{"c": "w", "wk": "pedantic", "cap": 1 << 26, "items": [{"tid": tid, "v": v}], "nolog": 1, "lean": 1},
                             {"c": "rfaults", "tid": tid, "rk": rk, "src": "last", "codes": [12, 14, 16], "lean": 1}])
+    # entries of 3 GiB and 9 GiB that the reader skips (unknown id, deleted entry), on a user-defined reader over an endless
+    # source whose Skip only advances a counter: a fault at every primitive call, also should such a skip be made in pieces
+    u64 = lambda x: [0x83] + word(x, 8)
+    for size in (3 << 30, 9 << 30, (1 << 31) + 5):
+        if "TA" in types:
+            src = [0xb5, 0x00, 0x01, 77] + u64(size)
+            bgroups.append([{"c": "rfaults", "tid": "TA", "rk": "sparse", "src": {"b": src}, "codes": [12, 14, 16], "lean": 1}])
+        if "TB" in types:
+            src = [0xb5] + u64(0x1122334455667788) + [0x02, 0x05] + u64(size) + [0x00, 0x01, 0x07]
+            bgroups.append([{"c": "rfaults", "tid": "TB", "rk": "sparse", "src": {"b": src}, "codes": [12, 14, 16], "lean": 1}])
     cmds = with_group_resets(groups, 10) + with_group_resets(bgroups, 1)
     run.samples = groups[0]
     run_codec(run, 'C10', cmds, mc=mc_session(run))      # design level: a peer stops at the first error
@@ -960,14 +971,14 @@ def check_C17(run):
     for side in ("r", "w"):
         full, sample = seqs[side]
         kinds = (["pedantic", "buffer", "sstream", "fstream", "fd", "fdburst", "fdbad"] if side == "r"
-                 else ["pedantic", "buffer", "constexpr", "sstream", "fd", "lstream", "fdfull"])
+                 else ["pedantic", "buffer", "constexpr", "sstream", "fd", "lstream", "fdfull", "fdpart"])
         lens = (0, 1, 2, 3, 4, 6, 12) if side == "r" else (0, 1, 2, 3, 4, 6)
         allseqs = list(full) + list(sample) + random_sequences(rng, side, 6000 if thorough else 500, 10)
         for seq in allseqs:
             for ln in (lens if (thorough or len(seq) <= 2) else (lens[k % 6],)):
                 for kind in kinds:
                     for bounded in (False, True):
-                        if kind in ("fd", "fdburst", "fdfull", "fdbad") and any(c["op"] in ("skip", "pad", "skipw", "padw") for c in seq):
+                        if kind in ("fd", "fdburst", "fdfull", "fdbad", "fdpart") and any(c["op"] in ("skip", "pad", "skipw", "padw") for c in seq):
                             continue
                         if not bounded and any(c["op"] in ("pad", "padw") for c in seq):
                             continue
@@ -993,6 +1004,16 @@ def check_C17(run):
                             c["cap"] = ln
                         cmds.append(c)
                         k += 1
+    # blocks larger than PIPE_BUF into a pipe that has room for only part of them (a short write must not pass for a
+    # complete one), alone and after smaller writes
+    for cap in (0, 1, 100, 2500, 4095):
+        for pre in ([], [{"op": "w1", "n": 1}], [{"op": "wn", "n": 3}, {"op": "wn", "n": 8}]):
+            for big in (4097, 5000, 6000, 70000):
+                for bounded in (False, True):
+                    seq = pre + [{"op": "wn", "n": big}, {"op": "w1", "n": 1}]
+                    cmds.append({"c": "io", "side": "w", "kind": "fdpart", "bounded": bounded, "direct": True,
+                                 "limit": 100000 if bounded else 0, "ops": io_ops(seq, "w", k), "cap": cap})
+                    k += 1
     # a sink that stops taking bytes must end a Skip of ~2^64 bytes at once; a change that loses this would make each
     # such command run into the executor's timeout, so they go last (after everything that can be judged quickly)
     slow = [c for c in cmds if c["kind"] == "lstream" and any(o["op"] == "skipw" and not isinstance(o["n"], int) for o in c["ops"])]
@@ -1008,7 +1029,7 @@ def check_C17(run):
     return vf.finish(run, rule='the same TLC-generated and random call sequences executed directly on every reader '
                                '(BufferReader, PedanticBufferReader, StreamReader over stringstream and ifstream, FdReader, '
                                'BoundedReader over each) and every writer (Buffer within capacity, Pedantic, Constexpr, Stream, '
-                               'Fd, StreamWriter over a stream that takes only cap bytes, FdWriter on /dev/full, FdReader on an unreadable descriptor, BoundedWriter '
+                               'Fd, StreamWriter over a stream that takes only cap bytes, FdWriter on /dev/full and on a nearly full non-blocking pipe, FdReader on an unreadable descriptor, BoundedWriter '
                                'over each), element widths 1/2/4/8, accessors (size/capacity/remaining/empty) after every call; '
                                'distinct = distinct commands')
 
@@ -1279,6 +1300,8 @@ def check_C15(run):
                         table[str(iv)] = (i * 3 + 1) % 2000000000
                 rk = ["pedantic", "sstream", {"bounded": "buffer", "limit": BIGCAP}, "fstream"][n % 4]
                 g = [w, {"c": "r", "rk": rk, "src": "last", "items": [{"tid": tid}, {"tid": tid}], "handles": table, "nolog": 1}]
+                # a writer that hands out a reference of its own for empty handles as well (a channel slot per handle)
+                g.append({"c": "w", "wk": wk, "cap": BIGCAP, "items": [{"tid": tid, "v": v}], "refs": refs, "hmode": "refs-always", "nolog": 1})
                 # corrupted type tags / references: every leading byte position x hostile values
                 nb = min(20, max(2, len(json.dumps(v)) // 3))
                 for pos in range(nb):
@@ -1705,6 +1728,19 @@ def key_tl(ev, why, cmd=None):
 
 def _rpc_step(rng):
     s = lambda txt: {"cw": 1, "b": [ord(c) for c in txt]}
+    if rng.random() < 0.4:
+        # the interface whose handlers are bound as member functions of a service object (another dispatch path)
+        calls = []
+        for _ in range(rng.randrange(1, 5)):
+            m = rng.choice(["Inc", "Fixed", "Name", "Fixed"])
+            if m == "Inc":
+                a = {"m": [word(rng.randrange(256), 1)]}
+            elif m == "Fixed":
+                a = {"m": [word(rng.randrange(65536), 2), word(rng.randrange(65536), 2)]}
+            else:
+                a = {"m": []}
+            calls.append({"m": m, "args": a})
+        return {"op": "rpc", "slot": 0, "val": 0, "iface": "small", "calls": calls}
     calls = []
     for _ in range(rng.randrange(1, 4)):
         m = rng.choice(["Sum", "Concat", "Echo", "Div"])
